@@ -251,6 +251,28 @@ fn scn_configs(o: &Opts, tr: &mut Tr, prop: &str) {
             }
         }
     }
+    if prop == "C11" || prop == "C09" {
+        // the level is set again (to the same or another level) after input has been tokenised but before
+        // the first block - and with it the header - has been written
+        let mut k = 0usize;
+        for wb in 12..=15u8 {
+            for rep in 0..(if o.thorough { 8 } else { 4 }) {
+                k += 1;
+                let mut v: Vec<u8> = (0..6000).map(|_| 40 + r.gen_range(0..48u8)).collect();
+                let head: Vec<u8> = v[..300].to_vec();
+                v.extend_from_slice(&head);
+                for _ in 0..3000 { v.push(40 + r.gen_range(0..48u8)); }
+                let first = 9000 + rep * 13;
+                let big = 1usize << 20;
+                let cfg = Cfg { zlib: true, level: 1, strat: 0, wbits: wb, api: "params" };
+                let sch = Sched { chunk_pat: "all".into(), outs: vec![big], flush_pct: 0, flush_set: vec![], callback: false, max_points: 0 };
+                comp::SCRIPT.with(|s| *s.borrow_mut() = vec![(first.min(v.len()), big, 0), (v.len(), big, 4)]);
+                comp::RELEVEL_PCT.with(|c| c.set(100));
+                stream_comp_case(tr, &format!("relevel-early-w{}-{}", wb, k), prop, &v, &cfg, &sch, &mut r, "planted");
+                comp::RELEVEL_PCT.with(|c| c.set(0));
+            }
+        }
+    }
     if prop == "C11" {
         // flush points (call boundaries) followed by data that also occurs 1..7 bytes beyond the
         // declared window: whatever the match finder's bookkeeping looks like when a call resumes,
@@ -414,6 +436,7 @@ fn main() {
         "bound" => capi::scn_bound(&o, &mut tr, "C15"),
         "reset" => reset::scn_reset(&o, &mut tr, "C18"),
         "snapshots" => reset::scn_snapshots(&o, &mut tr, "C19"),
+        "snapshots_c16" => reset::scn_snapshots(&o, &mut tr, "C16"),
         "adler_stream" => scn_adler_stream(&o, &mut tr, "C16"),
         "checksums" => cks::scn_checksums(&o, &mut tr, "C16"),
         "genstreams" => scn_dec::scn_genstreams(&o, &mut tr, "C03"),
